@@ -60,6 +60,19 @@ func (h *NFSProcedureHandler) handleMountCall(call *RPCCall, body io.Reader, rep
 		}
 
 		// Create mount point with timeout
+		// Every component goes to the backend: hold each to the rules LOOKUP applies to a name
+		for _, component := range strings.Split(strings.Trim(mountPath, "/"), "/") {
+			if mountPath == "/" {
+				break
+			}
+			if status := validateFilename(component); status != NFS_OK {
+				var buf bytes.Buffer
+				xdrEncodeUint32(&buf, status) // NFS3ERR_INVAL / NFS3ERR_NAMETOOLONG equal MNT3ERR_INVAL / MNT3ERR_NAMETOOLONG
+				reply.Data = buf.Bytes()
+				return reply, nil
+			}
+		}
+
 		node, err := h.server.handler.Lookup(mountPath)
 		if err != nil {
 			// MNT3 response: fhs_status (MNT3ERR_NOENT = 2)
